@@ -73,6 +73,9 @@ func (in *dockerIn) query() string {
 		return "count_over_time(" + sel + rng + ")"
 	case "sumcount":
 		return "sum by (container) (count_over_time(" + sel + rng + "))"
+	case "rangeby":
+		// the range aggregation's own grouping over two labels: one series per (k, j), the same at every run
+		return "max_over_time(" + sel + " | logfmt | unwrap v " + rng + ") by (k, j)"
 	case "logkv":
 		// lines whose keys differ only in characters that label names cannot carry (a.b, a_b): what each entry's labels
 		// are must not depend on the order a map is walked in
@@ -531,7 +534,7 @@ func allPerms(n int) [][]int {
 
 func genDeterminism(r *rand.Rand) dockerIn {
 	in := baseIn()
-	in.Shape = []string{"log", "count", "sumcount", "log", "sumdep", "maxnan", "logkv"}[r.Intn(7)]
+	in.Shape = []string{"log", "count", "sumcount", "log", "sumdep", "maxnan", "logkv", "rangeby"}[r.Intn(8)]
 	in.Start, in.End, in.Step, in.Range = []int{1700000000, 0}, []int{1700000060, 0}, 20, 600
 	nc := 2 + r.Intn(4)
 	sec := 1700000001
@@ -550,7 +553,13 @@ func genDeterminism(r *rand.Rand) dockerIn {
 		}
 		in.Ctrs = append(in.Ctrs, ctr)
 	}
-	if in.Shape == "logkv" {
+	if in.Shape == "rangeby" {
+		for c := range in.Ctrs {
+			for j := range in.Ctrs[c].Frames {
+				in.Ctrs[c].Frames[j].Msg = B(fmt.Sprintf("v=%d k=%d j=%d", 1+j, c%2, j%2))
+			}
+		}
+	} else if in.Shape == "logkv" {
 		for c := range in.Ctrs {
 			for j := range in.Ctrs[c].Frames {
 				in.Ctrs[c].Frames[j].Msg = B(fmt.Sprintf("a.b=%d a_b=%d a-b=%d k=%d", j, j+1, j+2, c))
